@@ -57,9 +57,10 @@ func zzC14_notify() {
 	var sent []uint32
 	next := uint32(1)
 	terminated := false // the peer / transport / local side ended the connection
+	localClose := false // the local side closed the connection (may race with messages in flight)
 	poisoned := false   // an undecodable message was delivered: nothing after it may reach a handler
 	for i := 0; i < ne; i++ {
-		switch vChoice("event", 8) {
+		switch vChoice("event", 9) {
 		case 0: // next message's handler requests CloseNotify
 			wantNotifyInHandler = true
 			fallthrough
@@ -113,6 +114,17 @@ func zzC14_notify() {
 			if !terminated {
 				c.Close()
 				terminated = true
+				localClose = true
+			}
+		case 8: // a message whose last bytes are returned by the same Read as the end of the stream
+			if !terminated {
+				t.eofWithData = true
+				t.in <- zzPlainMessage(257, 0x80, 0, next)
+				if !poisoned {
+					sent = append(sent, next)
+				}
+				next++
+				terminated = true
 			}
 		}
 		vQuiesce()
@@ -137,8 +149,10 @@ func zzC14_notify() {
 			vAssert(delivered[i] == sent[i], "inbound messages reach the handler in order")
 		}
 	}
-	if !terminated || (!poisoned && terminated) {
-		// everything sent before a clean termination point was delivered, unless a local Close raced it
+	if !localClose {
+		// everything sent ahead of the end of the stream / the read error / the undecodable message is
+		// delivered (a local Close may legitimately race with messages still in flight)
+		vAssert(len(delivered) == len(sent), "no inbound message is lost")
 	}
 	vReach("C14_notify")
 }
